@@ -22,7 +22,7 @@ THEOREMS = ["C03_excitation_formula", "C03_recombination_uses_next_charge", "C03
             "C03_donor_filter_spec", "C03_total_power_formula", "C03_total_power_uniform",
             "C03_radiation_function_total", "C03_brems_formula", "C03_brems_species_filter",
             "C03_brems_bin_average_partial", "C03_zero_when_nonpositive", "C03_nonneg",
-            "C03_thermalcx_nonneg", "C03_linear_in_density"]
+            "C03_thermalcx_nonneg", "C03_linear_in_density", "C03_history_independent"]
 
 GL_ORDER = 8
 
@@ -154,6 +154,55 @@ def gen_total_case(impl, rng, style):
     return {"kind": 4, "style": style, "cfg": gen_cfg(rng, style, total=True), "elem": e, "charge": c,
             "ne": gen_density(rng, style, bad=0.5), "te": gen_temperature(rng, style, bad=0.5), "comp": comp,
             "minw": minw, "maxw": maxw, "bins": bins}
+
+
+SEQ_LEN = 3
+
+
+def make_sequence(impl, rng, base, length=SEQ_LEN):
+    """One model instance is evaluated at `length` points of one plasma.  Step 0 is `base`; at every further point each
+    density / temperature keeps its value, takes a new positive value, or becomes zero / negative / positive again, so
+    that positive->zero, zero->positive, negative->positive ... occur in every order between consecutive points; at
+    least one species flips its sign status at every step; now and then the composition itself is re-set
+    (species dropped / added / reordered: the models are notified and must re-populate their caches)."""
+    style = base["style"]
+    steps = [base]
+    for k in range(1, length):
+        prev = steps[-1]
+        st = dict(prev)
+        if rng.random() < 0.5:
+            st["ne"] = gen_density(rng, style, bad=0.8)
+        if rng.random() < 0.5:
+            st["te"] = gen_temperature(rng, style, bad=0.8)
+        comp = []
+        for (e, c, n, t) in prev["comp"]:
+            r = rng.random()
+            if r < 0.35:
+                pass
+            elif r < 0.6:
+                n = gen_density(rng, style, False)
+            elif r < 0.8:
+                n = rng.choice([0.0, -1.0]) * gen_density(rng, style, False)
+            else:
+                t = gen_temperature(rng, style)
+            comp.append((e, c, n, t))
+        if comp:
+            i = rng.randrange(len(comp))                      # forced flip of one species
+            e, c, n, t = comp[i]
+            comp[i] = (e, c, gen_density(rng, style, False) if n <= 0 else rng.choice([0.0, -n]), t)
+        r = rng.random()
+        if r < 0.06 and len(comp) > 1:
+            del comp[rng.randrange(len(comp))]
+        elif r < 0.12:
+            e = rng.randrange(len(impl.ELEMS))
+            c = rng.randint(0, impl.znum(e))
+            if (e, c) not in [(s[0], s[1]) for s in comp]:
+                comp.insert(rng.randint(0, len(comp)), (e, c, gen_density(rng, style), gen_temperature(rng, style)))
+        elif r < 0.16:
+            rng.shuffle(comp)
+        st["comp"] = comp
+        steps.append(st)
+    return steps
 
 
 def gen_gaunt(rng):
@@ -476,14 +525,16 @@ def run(ctx):
     n_bfn = 30 if quick else 500
     n_brm = 20 if quick else 300
     n_rfn = 15 if quick else 200
-    cases = []
+    # sequences: one model instance evaluated at SEQ_LEN points of one plasma (single-point kinds: sequences of one)
+    seqs = []
+    nseq = lambda n: -(-n // SEQ_LEN)
     for style in ("dyadic", "real"):
         for kind in (1, 2, 3):
-            cases += [gen_line_case(impl, rng, kind, style) for _ in range(n_line)]
-        cases += [gen_total_case(impl, rng, style) for _ in range(n_total)]
-        cases += [gen_bremsfn_case(rng, style) for _ in range(n_bfn)]
-        cases += [gen_brems_case(impl, rng, style) for _ in range(n_brm)]
-    cases += [gen_radfn_case(rng) for _ in range(n_rfn)]
+            seqs += [make_sequence(impl, rng, gen_line_case(impl, rng, kind, style)) for _ in range(nseq(n_line))]
+        seqs += [make_sequence(impl, rng, gen_total_case(impl, rng, style)) for _ in range(nseq(n_total))]
+        seqs += [[gen_bremsfn_case(rng, style)] for _ in range(n_bfn)]
+        seqs += [make_sequence(impl, rng, gen_brems_case(impl, rng, style)) for _ in range(nseq(n_brm))]
+    seqs += [[gen_radfn_case(rng)] for _ in range(n_rfn)]
     # corpus of past disagreements runs first
     corpus_dir = os.path.join(os.path.dirname(os.path.dirname(os.path.abspath(__file__))), "corpus", "C03")
     corpus = []
@@ -500,7 +551,39 @@ def run(ctx):
                 if "zs" in c:
                     c["zs"] = [tuple(z) for z in c["zs"]]
                 corpus.append(c)
-    cases = corpus + cases
+    seqs = [[c] for c in corpus] + seqs
+    # run the implementation: every sequence on ONE attached model instance, point after point
+    cases, pre_obs, transitions = [], [], {"pos->nonpos": 0, "nonpos->pos": 0, "composition_reset": 0, "sequences": 0}
+    for sq in seqs:
+        ctx.crumb({"sequence": sq})
+        kind = sq[0]["kind"]
+        if kind in (1, 2, 3):
+            obs = impl.run_line_seq(sq)
+        elif kind == 4:
+            obs = impl.run_total_seq(sq)
+        elif kind == 6:
+            obs = impl.run_brems_seq(sq)
+        elif kind == 5:
+            obs = [impl.run_bremsfn(sq[0])]
+        else:
+            obs = [impl.run_radfn(sq[0])]
+        if len(sq) > 1:
+            transitions["sequences"] += 1
+            for a, b in zip(sq, sq[1:]):
+                ka, kb = [(x[0], x[1]) for x in a["comp"]], [(x[0], x[1]) for x in b["comp"]]
+                if ka != kb:
+                    transitions["composition_reset"] += 1
+                    continue
+                for x, y in list(zip(a["comp"], b["comp"])) + [((0, 0, a["ne"], a["te"]), (0, 0, b["ne"], b["te"]))]:
+                    for u, v in ((x[2], y[2]), (x[3], y[3])):
+                        if u > 0 >= v:
+                            transitions["pos->nonpos"] += 1
+                        elif u <= 0 < v:
+                            transitions["nonpos->pos"] += 1
+        for k, (c, o) in enumerate(zip(sq, obs)):
+            c = dict(c, seq_step=k, seq_prefix=sq[:k] if k else [])
+            cases.append(c)
+            pre_obs.append(o)
 
     glx, glw = gl_rule()
     texts, metas, observations = [], [], []
@@ -512,17 +595,16 @@ def run(ctx):
     nontrivial = 0
     for ci, case in enumerate(cases):
         kind = case["kind"]
-        ctx.crumb(case)
         dist["by_kind"][names[kind]] = dist["by_kind"].get(names[kind], 0) + 1
         if "comp" in case:
             dist["comp_sizes"][len(case["comp"])] = dist["comp_sizes"].get(len(case["comp"]), 0) + 1
             if case["ne"] <= 0 or case["te"] <= 0 or any(s[2] <= 0 or s[3] <= 0 for s in case["comp"]):
                 dist["with_nonpositive_input"] += 1
         if kind in (1, 2, 3):
-            obs = impl.run_line(case)
+            obs = pre_obs[ci]
             e, c, t = case["line"]
-            texts.append("check_line %d %s (mkLine %s %s %s) %s %s %s %s %s %s %s %s" % (
-                kind, coq_cfg(case["cfg"]), zlit(e), zlit(c), zlit(t), qz(case["ne"]), qz(case["te"]), coq_comp(impl, case["comp"]),
+            texts.append("check_line %d %s %s (mkLine %s %s %s) %s %s %s %s %s %s %s %s" % (
+                kind, "true" if obs["fresh"] else "false", coq_cfg(case["cfg"]), zlit(e), zlit(c), zlit(t), qz(case["ne"]), qz(case["te"]), coq_comp(impl, case["comp"]),
                 coq_out(obs["out"]), coq_zll(obs["calls"]), coq_qll(obs["evals"]), "[" + "; ".join(zlit(v) for v in obs["target"]) + "]%Z",
                 coq_zll(obs["tsamp"])))
             okey = obs["out"][0] if isinstance(obs["out"], tuple) else obs["out"]
@@ -539,9 +621,9 @@ def run(ctx):
             if case["cfg"]["sgn"] < 0:
                 dist["negative_coefficients"] += 1
         elif kind == 4:
-            obs = impl.run_total(case)
-            texts.append("check_total %s %s %s %s %s %s %s %s %s %s %d%%nat %s %s %s %s" % (
-                coq_cfg(case["cfg"]), "[" + "; ".join(zlit(h) for h in impl.HYD) + "]%Z", zlit(case["elem"]), zlit(case["charge"]),
+            obs = pre_obs[ci]
+            texts.append("check_total %s %s %s %s %s %s %s %s %s %s %s %d%%nat %s %s %s %s" % (
+                "true" if obs["fresh"] else "false", coq_cfg(case["cfg"]), "[" + "; ".join(zlit(h) for h in impl.HYD) + "]%Z", zlit(case["elem"]), zlit(case["charge"]),
                 zlit(impl.znum(case["elem"])), qz(case["ne"]), qz(case["te"]), coq_comp(impl, case["comp"]),
                 qz(case["minw"]), qz(case["maxw"]), case["bins"], coq_out(obs["out"]), coq_ql(obs["samples"]),
                 coq_zll(obs["calls"]), coq_qll(obs["evals"])))
@@ -554,7 +636,7 @@ def run(ctx):
             if case["cfg"]["sgn"] < 0:
                 dist["negative_coefficients"] += 1
         elif kind == 5:
-            obs = impl.run_bremsfn(case)
+            obs = pre_obs[ci]
             sq = orc.sqrt_tab(case["te"])
             ex = [orc.exp_entry(case["te"], case["wvl"])]
             g = case["gaunt"]
@@ -566,7 +648,7 @@ def run(ctx):
             if sum(1 for z, n in case["zs"] if n > 0 and z > 0) >= 2:
                 nontrivial += 1
         elif kind == 6:
-            obs = impl.run_brems(case)
+            obs = pre_obs[ci]
             sq = orc.sqrt_tab(case["te"])
             ex = []
             if case["ne"] > 0 and case["te"] > 0:
@@ -589,12 +671,13 @@ def run(ctx):
             fs = search_brems(impl, orc, case, obs)
             if obs["gaunt_te"] not in ([], [case["te"]]):
                 fs.append({"claim": "the Gaunt factor is evaluated at the electron temperature", "observed": obs["gaunt_te"]})
-            if case["via_provider"] and obs["calls"] != [[7]] and not (case["ne"] <= 0 and obs["calls"] in ([], [[7]])):
-                fs.append({"claim": "the Gaunt factor is taken from the provider (free_free_gaunt_factor)", "observed": obs["calls"]})
+            if obs["calls"] != ([[7]] if (obs["fresh"] and case["via_provider"]) else []):
+                fs.append({"claim": "the Gaunt factor is taken from the provider (free_free_gaunt_factor) when the cache is populated, "
+                                    "and only then", "observed": obs["calls"]})
             if len(obs["gaunt_z"]) >= 2:
                 nontrivial += 1
         else:
-            obs = impl.run_radfn(case)
+            obs = pre_obs[ci]
             texts.append("check_radfn %s %s %s %d%%nat %s" % (qz(case["phi"]), qz(case["minw"]), qz(case["maxw"]), case["bins"],
                                                              coq_ql(obs["samples"])))
             okey = "bins"
@@ -691,7 +774,9 @@ def run(ctx):
                 "point; non-trivial = the model emits and (thermal CX) has >= 2 donors / (total power) >= 2 terms evaluated / "
                 "(bremsstrahlung) >= 2 ions take part",
         "distribution": dict(dist, styles="half dyadic (products exact in double), half realistic magnitudes (1e15..1e21 m^-3, 0.1..1e4 eV)",
-                             sign_probes=n_neg, corpus_cases=len(corpus)),
+                             sign_probes=n_neg, corpus_cases=len(corpus), sequences=dict(transitions, length=SEQ_LEN,
+                             rule="line, total-power and bremsstrahlung cases are consecutive points of one plasma evaluated on ONE "
+                                  "model instance; every evaluation is compared with the model's value for that point alone")),
         "tolerance": {"line_and_total_radiance": "2^-44 * sum of |terms|", "accessor_calls/evaluate_args/lineshape_target/error_kind": "exact",
                       "total_power_bins": "all bins bit-identical", "brems_integrand": "2^-40", "brems_bins": "2^-15 (default integrator, "
                       "rtol 1e-5) / 2^-32 (rtol 1e-13) against %d-point Gauss-Legendre of the model evaluated in Coq" % GL_ORDER,
